@@ -15,7 +15,7 @@ EXPLANATION = (
     "patch failed; (R5) the reject is produced by the same header and hunk writers as a full patch (so C12's keyword agreement "
     "covers it); (R6) completeness of the reject loop: once an entry's report is known failed, the next "
     "entry is reached only through the reject writer or through the NotFound answer of creating that very reject (the documented "
-    "'directory does not exist' bypass). Not decided: line content and numbers inside the reject (writer arithmetic, see C12)."
+    "'directory does not exist' bypass). (R11) in a normal application every hunk is tried before its report is recorded, so every hunk that was not applied is Failed and reaches the reject. Not decided: line content and numbers inside the reject (writer arithmetic, see C12)."
 )
 LEVEL_NOTE = "Undecided: exact content/line numbers of the written hunks; existence of the .rej when its directory is missing is by design skipped."
 
